@@ -150,13 +150,17 @@ def run(ctx):
                     if op[0] == "open" and r[0] == "ok":
                         h = op[1]
                         if "w" in op[3] or "a" in op[3]:
-                            for k in (free + 1, 1):
-                                wop = ["write", h, (b"W" * (k * bpc)).hex()]
-                                bw = tree_sig(ir.walk()) if False else None
-                                r2, _ = ir.op(wop)
-                                extra.append((wop, r2))
-                                if r2[0] == "err":
-                                    break
+                            free_now = free_clusters(ir)
+                            wop = ["write", h, (b"W" * ((free_now + 1) * bpc)).hex()]
+                            r2, _ = ir.op(wop)
+                            extra.append((wop, r2))
+                            if r2[0] == "err" and free_now >= 2:
+                                # the refused request must not spoil a smaller one that fits
+                                wop2 = ["write", h, (b"w" * bpc).hex()]
+                                r2b, _ = ir.op(wop2)
+                                if r2b[0] == "err":
+                                    ctx.violation(f"{label}: after a write of {free_now + 1} clusters was refused (ENOSPC, {free_now} free), a 1-cluster write is refused too: {r2b[1]}",
+                                                  f"followup-refused:write:{r2b[1]}", dict(volume=meta, ops=[o[:3] if o[0] != 'write' else [o[0], o[1], '<data>'] for o in done[-20:]] + [op, wop[:2], wop2[:2]]))
                             top = ["truncate", h, 2 ** 32 + 5]
                             r3, _ = ir.op(top)
                             extra.append((top, r3))
